@@ -88,6 +88,17 @@ pub fn parse_params(p: &Value) -> FileDbParams {
     params
 }
 
+/// io-trace hook (only with the default feature "hooks"; golden images are produced by a build of the
+/// harness against the pinned release, which has no hooks)
+#[cfg(feature = "hooks")]
+fn io_take() -> Vec<(String, &'static str)> {
+    abyssiniandb::filedb::verif::take_io_trace()
+}
+#[cfg(not(feature = "hooks"))]
+fn io_take() -> Vec<(String, &'static str)> {
+    Vec::new()
+}
+
 fn panic_msg(e: Box<dyn std::any::Any + Send>) -> String {
     if let Some(s) = e.downcast_ref::<&str>() {
         s.to_string()
@@ -452,7 +463,7 @@ impl Ctx {
             "len" | "is_empty" | "flush" | "sync_all" | "sync_data" | "read_fill_buffer" => {
                 let h = op["h"].as_i64().ok_or("h")?;
                 let e = self.maps.get_mut(&h).ok_or("no such handle")?;
-                let _ = abyssiniandb::filedb::verif::take_io_trace();
+                let _ = io_take();
                 let r: std::io::Result<Value> = with_map!(&mut e.h, m => match name {
                     "len" => m.len().map(|l| json!(l)),
                     "is_empty" => m.is_empty().map(|b| json!(b)),
@@ -461,7 +472,7 @@ impl Ctx {
                     "sync_data" => m.sync_data().map(|_| Value::Null),
                     _ => m.read_fill_buffer().map(|_| Value::Null),
                 });
-                let io = abyssiniandb::filedb::verif::take_io_trace();
+                let io = io_take();
                 if name != "len" && name != "is_empty" {
                     ev.insert("io".into(), Value::Array(io.iter().map(|(f, o)| json!([f, o])).collect()));
                 }
@@ -475,9 +486,9 @@ impl Ctx {
             "db_sync_all" | "db_sync_data" => {
                 let id = op["db"].as_i64().ok_or("db")?;
                 let (db, d) = self.dbs.get(&id).ok_or("no such db")?;
-                let _ = abyssiniandb::filedb::verif::take_io_trace();
+                let _ = io_take();
                 let r = if name == "db_sync_all" { db.sync_all() } else { db.sync_data() };
-                let io = abyssiniandb::filedb::verif::take_io_trace();
+                let io = io_take();
                 ev.insert("io".into(), Value::Array(io.iter().map(|(f, o)| json!([f, o])).collect()));
                 ev.insert("dir".into(), json!(d));
                 self.set_res(ev, r, |_| Value::Null);
@@ -616,6 +627,20 @@ impl Ctx {
                 ev.insert("maps".into(), Value::Array(maps));
                 ev.insert("outcome".into(), json!("ok"));
             }
+            "install" => {
+                // copy a committed golden image into the work directory
+                let src = PathBuf::from(op["src"].as_str().ok_or("src")?);
+                let to = self.dir(op["dir"].as_str().ok_or("dir")?);
+                let _ = std::fs::remove_dir_all(&to);
+                std::fs::create_dir_all(&to).map_err(|e| format!("{e}"))?;
+                for e in std::fs::read_dir(&src).map_err(|e| format!("install {src:?}: {e}"))?.flatten() {
+                    let f = e.file_name().to_string_lossy().to_string();
+                    if f.ends_with(".htx") || f.ends_with(".key") || f.ends_with(".val") {
+                        std::fs::copy(e.path(), to.join(&f)).map_err(|e| format!("install copy: {e}"))?;
+                    }
+                }
+                ev.insert("outcome".into(), json!("ok"));
+            }
             "rm_dir" => {
                 let d = self.dir(op["dir"].as_str().ok_or("dir")?);
                 let _ = std::fs::remove_dir_all(&d);
@@ -733,7 +758,7 @@ impl Ctx {
                 ev.insert("hash".into(), json!(format!("{h:016x}")));
                 ev.insert("outcome".into(), json!("ok"));
             }
-            "mark" | "reset" | "new_process" | "kill_here" | "note" => {
+            "mark" | "reset" | "new_process" | "kill_here" | "note" | "load" => {
                 for (k, x) in op.as_object().unwrap() {
                     if k != "op" { ev.insert(k.clone(), x.clone()); }
                 }
